@@ -147,6 +147,29 @@ def programs(tier: str):
                                     "scripts": [root, c1, c2],
                                     "starts": [[0, pos1, how], [starter2, pos2, how]],
                                 }
+    yield from _deep_programs(tier)
+
+
+def _deep_programs(tier: str):
+    """one task nests 4..6 (8) blocks while its parent / a sibling keep probing: an implementation
+    that layers or compacts the scope state beyond a few levels must not let the deep task's
+    blocks show in the others (every interleaving)"""
+    for d in (4, 5, 6) if tier == "quick" else (4, 5, 6, 8):
+        for pattern in ((1,), (1, 3), (0, 1, 3), (3, 0)):
+            deep = [pattern[i % len(pattern)] for i in range(d)] + [-1] * d
+            for root, pos in (([0, 1, -1], 1), ([0, 1, -1], 2), ([1, 3], 2)):
+                for how in ("spawn", "create"):
+                    yield {"scripts": [root, deep], "starts": [[0, pos, how]], "deep": d}
+            if d <= 5:
+                # a sibling observer next to the deep task
+                yield {"scripts": [[0], deep, [1, -1]], "starts": [[0, 1, "spawn"], [0, 1, "create"]], "deep": d}
+    # the ROOT nests deep and starts the child from the innermost level: the child keeps seeing
+    # that snapshot while the root unwinds
+    for d in (4, 6):
+        for pattern in ((1,), (0, 1, 3)):
+            deep = [pattern[i % len(pattern)] for i in range(d)] + [-1] * d
+            yield {"scripts": [deep, [1, -1]], "starts": [[0, d, "spawn"]], "deep": d}
+            yield {"scripts": [deep, [3]], "starts": [[0, d - 1, "create"]], "deep": d}
 
 
 def explore_config(tier: str, program) -> dict:
